@@ -5,6 +5,8 @@ key) with values {absent, v1, v2}, all policies; real `_merge` vs the per-key
 three-way rule; plus the public `merge()` on listings stored in a real store.
 """
 
+CASE_TIMEOUT = 300  # seconds per pool task (the unchanged tree needs a small fraction of this)
+
 import copy
 import itertools
 
